@@ -80,6 +80,24 @@ def mutations(path, ops=None):
                     and '(' in s and s.count('(') == s.count(')') and s.count('{') == s.count('}') and 'panic!' not in s and 'debug_assert' not in s:
                 ind = l[:len(l) - len(l.lstrip())]
                 yield i, 'guard', '%sif !::std::thread::panicking() { %s }' % (ind, s)
+    if ops is not None and 'ifopaque' in ops:
+        # a condition weakened / strengthened by something no analysis can evaluate: `cond || opaque` lets the guarded code run when the
+        # test failed, `cond && !opaque` lets it be skipped when the test held
+        for i, l in code:
+            code_part = l.split('//')[0]
+            m = re.match(r'^(\s*)(\}\s*else\s+)?(if|while)\s+(?!let\b)(.+?)\s*\{\s*$', code_part.rstrip())
+            if m:
+                pre = m.group(1) + (m.group(2) or '')
+                yield i, 'or-opaque', '%s%s (%s) || ::std::thread::panicking() {' % (pre, m.group(3), m.group(4))
+                yield i, 'and-opaque', '%s%s (%s) && !::std::thread::panicking() {' % (pre, m.group(3), m.group(4))
+    if ops is not None and 'adjcmp' in ops:
+        # a comparison keeps its shape but one side is shifted by an opaque allowance (`len() < max + k`, `len() == 0 + k`)
+        for i, l in code:
+            c = l.split('//')[0]
+            m = re.search(r'(\.len\(\)\s*(?:==|!=|>=|<=|>|<)\s*)([A-Za-z0-9_\.]+)', c)
+            if m:
+                yield i, 'adjcmp:rhs', l.replace(m.group(0), m.group(1) + '(' + m.group(2) + ' + (::std::thread::panicking() as usize))', 1)
+                yield i, 'adjcmp:lhs', l.replace(m.group(0), m.group(0).replace('.len()', '.len().saturating_sub(::std::thread::panicking() as usize)', 1), 1)
     if ops is not None and 'boolarg' in ops:
         for i, l in code:
             c = l.split('//')[0]
@@ -341,6 +359,8 @@ def test_one(job):
         fam = {'noopwaker'}
     elif job['op'].startswith('cmp'):
         fam = {'cmpstate'}
+    elif job['op'].startswith('adjcmp'):
+        fam = {'adjcmp'}
     cand = [(i, op, nw) for (i, op, nw) in mutations(path, fam) if i == idx and op == job['op']]
     if not cand:
         job['tests'] = 'lost'
